@@ -269,6 +269,7 @@ class EmitT:
             n = i.callee.val[1:]
             if n.startswith('llvm.lifetime') or n.startswith('llvm.dbg') or n.startswith('llvm.experimental.noalias'): return
             if n.startswith('llvm.assume'): o.append('  VERIF_ASSUME(%s);' % args[0]); return
+            if s.o.get('memhook') and re.match(r'llvm\.mem(cpy|move|set)', n): o.append('  VERIF_STORE(%s, 1);' % args[0])
             if n.startswith('llvm.memcpy') : o.append('  memcpy(%s, %s, %s);' % tuple(args[:3])); return
             if n.startswith('llvm.memmove'): o.append('  memmove(%s, %s, %s);' % tuple(args[:3])); return
             if n.startswith('llvm.memset'): o.append('  memset(%s, %s, %s);' % tuple(args[:3])); return
@@ -316,10 +317,18 @@ def translate_typed(text, opts):
     hdr = ['#include <stdint.h>', '#include <stddef.h>', '#include <string.h>', '#include <stdlib.h>',
            'typedef void (*verif_fn_t)(void); typedef uint8_t verif_fn_body_t;', '#include "verif_rt.h"']
     header = '#ifndef VERIF_UNIT_H\n#define VERIF_UNIT_H\n' + '\n'.join(hdr) + '\n' + '\n'.join(e.all_typedefs()) + '\n' + '\n'.join(protos) + '\n' + '\n'.join(gdefs) + '\n#endif\n'
-    body = '#include "%s"\n' % opts.get('hname', 'unit.h') + '\n'.join(ginits) + '\n\n' + '\n\n'.join(bodies) + '\n'
+    hook = ''
+    if opts.get('memhook'):
+        allow = opts.get('memhook_allow') or r'^$'
+        watched = [n for n, g in m.globals.items() if not g['const'] and g['init'] is not None and not re.search(allow, n[1:]) and not n.startswith('@llvm.')]
+        conds = ' && '.join('!__CPROVER_same_object(p, &%s)' % gname(n) for n in watched) or '1'
+        hook = ('#ifdef __CPROVER__\nstatic inline void verif_store_hook(const void* p) { __CPROVER_assert(%s, "store to a global object of the library (mutable static state)"); }\n'
+                '#define VERIF_STORE(p, n) verif_store_hook((const void*)(p))\n#else\n#define VERIF_STORE(p, n) ((void)0)\n#endif\n') % conds
+    body = '#include "%s"\n' % opts.get('hname', 'unit.h') + hook + '\n'.join(ginits) + '\n\n' + '\n\n'.join(bodies) + '\n'
     info = dict(functions=[n[1:] for n in m.funcs if not (omit and re.search(omit, n))],
                 omitted=[n[1:] for n in m.funcs if omit and re.search(omit, n)],
                 omitted_protos=[e.proto(n, f['ret'], f['args'], f.get('sx', (set(), False))) for n, f in m.funcs.items() if omit and re.search(omit, n)],
+                watched_globals=([n[1:] for n, g in m.globals.items() if not g['const'] and g['init'] is not None and not re.search(opts.get('memhook_allow') or r'^$', n[1:]) and not n.startswith('@llvm.')] if opts.get('memhook') else []),
                 globals={n[1:]: dict(const=bool(g['const']), has_init=g['init'] is not None, ty=repr(g['ty'])) for n, g in m.globals.items()},
                 decls=[n[1:] for n in m.decls])
     return header, body, info
